@@ -21,11 +21,15 @@ import sys
 import time
 
 VERIF = os.path.dirname(os.path.abspath(__file__))
-REPO = "/repo"
+# The registered checks always run against /repo. VERIF_REPO / VERIF_OUT exist only so that the
+# machinery itself can be tested against a mutated scratch copy of the repository without touching
+# /repo or the committed evidence (tools/seeded.py).
+REPO = os.environ.get("VERIF_REPO", "/repo")
+OUT = os.environ.get("VERIF_OUT", VERIF)
 HARNESS = os.path.join(VERIF, "harness")
-WORK = os.path.join(VERIF, ".work")
-EVID = os.path.join(VERIF, "evidence")
-REPLAYS = os.path.join(VERIF, "replays")
+WORK = os.path.join(OUT, ".work")
+EVID = os.path.join(OUT, "evidence")
+REPLAYS = os.path.join(OUT, "replays")
 KF_FILE = os.path.join(VERIF, "known_findings.txt")
 PIDS = ["C%02d" % i for i in range(1, 20)]
 
@@ -688,7 +692,23 @@ def do_setup():
     return 0 if p.returncode == 0 else 1
 
 
+def redirect_harness():
+    """VERIF_REPO given: work on a private copy of the harness crate whose path dependency points there."""
+    global HARNESS
+    if REPO == "/repo":
+        return
+    dst = os.path.join(WORK, "harness-copy")
+    shutil.rmtree(dst, ignore_errors=True)
+    shutil.copytree(HARNESS, dst, ignore=shutil.ignore_patterns("target"))
+    ct = os.path.join(dst, "Cargo.toml")
+    txt = open(ct).read().replace('path = "/repo"', 'path = "%s"' % REPO)
+    open(ct, "w").write(txt)
+    HARNESS = dst
+
+
 def main():
+    os.makedirs(WORK, exist_ok=True)
+    redirect_harness()
     ap = argparse.ArgumentParser()
     ap.add_argument("pid", nargs="?")
     ap.add_argument("--tier", default=os.environ.get("VERIF_TIER", "quick"), choices=["quick", "thorough"])
